@@ -6,11 +6,14 @@ CONSTANTS
   RegLogs <- MC_RegOne
   StdBases <- MC_B1
   MainBases <- MC_MainB2
-  WriteLogs <- MC_WriteTwo
+  WriteLogs <- MC_RegOne
   Shapes <- MC_ShapesOne
   Cutoffs <- MC_Cut10
   DefaultCutoff = 10
   MainLogs <- MC_MainLogs
+  MainGate = "log"
+  MainAlways <- MC_MainAlways
+  MainKinds <- MC_KindsBoth
   MaxHist = 5
   MaxWrites = 3
   MaxMains = 1
